@@ -123,11 +123,20 @@ fn producer_check<T: PieceType, C: CheckType>(pt: usize) {
     producer_check_n::<T, C>(pt, 3);
 }
 fn producer_check_n<T: PieceType, C: CheckType>(pt: usize, pmax: u32) {
+    producer_check_impl::<T, C>(pt, pmax, false);
+}
+fn producer_check_ep<T: PieceType, C: CheckType>(pt: usize, pmax: u32) {
+    producer_check_impl::<T, C>(pt, pmax, true);
+}
+fn producer_check_impl<T: PieceType, C: CheckType>(pt: usize, pmax: u32, ep_only: bool) {
     #[allow(non_snake_case)]
     let PMAX = pmax;
     let (b, pos, ch, pin) = any_valid_wf_board();
     let me = pos.stm;
     kani::assume(if C::IN_CHECK { ch.count_ones() == 1 } else { ch == 0 });
+    if ep_only {
+        kani::assume(pos.ep.is_some());
+    }
     let mine = pos.pieces[pt] & pos.colors[me];
     kani::assume(mine.count_ones() <= PMAX);
     let mut list = new_list();
@@ -157,70 +166,134 @@ fn producer_check_n<T: PieceType, C: CheckType>(pt: usize, pmax: u32) {
         i += 1;
     }
     kani::cover!(want);
-    kani::cover!(list.len() >= 2);
+    if PMAX >= 2 {
+        kani::cover!(list.len() >= 2);
+    } else {
+        kani::cover!(list.len() >= 1);
+    }
 }
 
-// @ob id=O1.4n0 props=C01 tier=quick kind=bounded weight=light bound="at most 3 knights of the mover; everything else symbolic (any valid position, symbolic king)" fn="KnightType::legals::<NotInCheckType>" desc="real KnightType::legals on the real ArrayVec, not in check: for an arbitrary (source,destination) probe the produced list contains the pair exactly once iff the knight is unpinned and the leap lands off own men; no entry is empty or promoted"
+// @ob id=O1.4n0 props=C01 tier=quick kind=bounded weight=light bound="at most 1 knight of the mover (the Verus loop proof O1.4/O1.4n/O1.5 shows every entry depends only on its own source square); everything else symbolic (any valid position, symbolic king)" fn="KnightType::legals::<NotInCheckType>" desc="real KnightType::legals on the real ArrayVec, not in check: for an arbitrary (source,destination) probe the produced list contains the pair exactly once iff the knight is unpinned and the leap lands off own men; no entry is empty or promoted"
 #[kani::proof]
 #[kani::unwind(9)]
 #[kani::stub(crate::magic::between, crate::vstubs::between_cf)]
 #[kani::stub(crate::magic::line, crate::vstubs::line_cf)]
 #[kani::stub(crate::magic::get_knight_moves, crate::vstubs::knight_moves_cf)]
 fn c01_legals_knight_nocheck() {
-    producer_check::<KnightType, NotInCheckType>(sp::KNIGHT);
+    producer_check_n::<KnightType, NotInCheckType>(sp::KNIGHT, 1);
 }
 
-// @ob id=O1.4n1 props=C01 tier=quick kind=bounded weight=light bound="at most 3 knights of the mover" fn="KnightType::legals::<InCheckType>" desc="as O1.4n0 in single check: only captures of the checker and interpositions by unpinned knights"
+// @ob id=O1.4n0t props=C01 tier=thorough kind=bounded weight=medium bound="at most 3 knights of the mover" fn="KnightType::legals::<NotInCheckType>" desc="real KnightType::legals on the real ArrayVec, not in check: for an arbitrary (source,destination) probe the produced list contains the pair exactly once iff the knight is unpinned and the leap lands off own men; no entry is empty or promoted"
+#[kani::proof]
+#[kani::unwind(9)]
+#[kani::stub(crate::magic::between, crate::vstubs::between_cf)]
+#[kani::stub(crate::magic::line, crate::vstubs::line_cf)]
+#[kani::stub(crate::magic::get_knight_moves, crate::vstubs::knight_moves_cf)]
+fn c01_legals_knight_nocheck_3() {
+    producer_check_n::<KnightType, NotInCheckType>(sp::KNIGHT, 3);
+}
+
+// @ob id=O1.4n1 props=C01 tier=quick kind=bounded weight=light bound="at most 1 knight of the mover (the Verus loop proof O1.4/O1.4n/O1.5 shows every entry depends only on its own source square); everything else symbolic (any valid position, symbolic king)" fn="KnightType::legals::<InCheckType>" desc="as O1.4n0 in single check: only captures of the checker and interpositions by unpinned knights"
 #[kani::proof]
 #[kani::unwind(9)]
 #[kani::stub(crate::magic::between, crate::vstubs::between_cf)]
 #[kani::stub(crate::magic::line, crate::vstubs::line_cf)]
 #[kani::stub(crate::magic::get_knight_moves, crate::vstubs::knight_moves_cf)]
 fn c01_legals_knight_check() {
-    producer_check::<KnightType, InCheckType>(sp::KNIGHT);
+    producer_check_n::<KnightType, InCheckType>(sp::KNIGHT, 1);
 }
 
-// @ob id=O1.4b0 props=C01 tier=quick kind=bounded weight=light bound="at most 3 bishops of the mover" fn="PieceType::legals (default body) for BishopType, NotInCheckType" desc="generic legals body instantiated for bishops, not in check: unpinned bishops move along their rays, pinned bishops only along the line through the king"
+// @ob id=O1.4n1t props=C01 tier=thorough kind=bounded weight=medium bound="at most 3 knights of the mover" fn="KnightType::legals::<InCheckType>" desc="as O1.4n0 in single check: only captures of the checker and interpositions by unpinned knights"
+#[kani::proof]
+#[kani::unwind(9)]
+#[kani::stub(crate::magic::between, crate::vstubs::between_cf)]
+#[kani::stub(crate::magic::line, crate::vstubs::line_cf)]
+#[kani::stub(crate::magic::get_knight_moves, crate::vstubs::knight_moves_cf)]
+fn c01_legals_knight_check_3() {
+    producer_check_n::<KnightType, InCheckType>(sp::KNIGHT, 3);
+}
+
+// @ob id=O1.4b0 props=C01 tier=quick kind=bounded weight=light bound="at most 1 bishop of the mover (the Verus loop proof O1.4/O1.4n/O1.5 shows every entry depends only on its own source square); everything else symbolic (any valid position, symbolic king)" fn="PieceType::legals (default body) for BishopType, NotInCheckType" desc="generic legals body instantiated for bishops, not in check: unpinned bishops move along their rays, pinned bishops only along the line through the king"
 #[kani::proof]
 #[kani::unwind(9)]
 #[kani::stub(crate::magic::between, crate::vstubs::between_cf)]
 #[kani::stub(crate::magic::line, crate::vstubs::line_cf)]
 #[kani::stub(crate::magic::get_bishop_moves, crate::vstubs::bishop_moves_cf)]
 fn c01_legals_bishop_nocheck() {
-    producer_check::<BishopType, NotInCheckType>(sp::BISHOP);
+    producer_check_n::<BishopType, NotInCheckType>(sp::BISHOP, 1);
 }
 
-// @ob id=O1.4b1 props=C01 tier=quick kind=bounded weight=light bound="at most 3 bishops of the mover" fn="PieceType::legals (default body) for BishopType, InCheckType" desc="generic legals body for bishops in single check: pinned bishops skipped, others restricted to the check mask"
+// @ob id=O1.4b0t props=C01 tier=thorough kind=bounded weight=medium bound="at most 3 bishops of the mover" fn="PieceType::legals (default body) for BishopType, NotInCheckType" desc="generic legals body instantiated for bishops, not in check: unpinned bishops move along their rays, pinned bishops only along the line through the king"
+#[kani::proof]
+#[kani::unwind(9)]
+#[kani::stub(crate::magic::between, crate::vstubs::between_cf)]
+#[kani::stub(crate::magic::line, crate::vstubs::line_cf)]
+#[kani::stub(crate::magic::get_bishop_moves, crate::vstubs::bishop_moves_cf)]
+fn c01_legals_bishop_nocheck_3() {
+    producer_check_n::<BishopType, NotInCheckType>(sp::BISHOP, 3);
+}
+
+// @ob id=O1.4b1 props=C01 tier=quick kind=bounded weight=light bound="at most 1 bishop of the mover (the Verus loop proof O1.4/O1.4n/O1.5 shows every entry depends only on its own source square); everything else symbolic (any valid position, symbolic king)" fn="PieceType::legals (default body) for BishopType, InCheckType" desc="generic legals body for bishops in single check: pinned bishops skipped, others restricted to the check mask"
 #[kani::proof]
 #[kani::unwind(9)]
 #[kani::stub(crate::magic::between, crate::vstubs::between_cf)]
 #[kani::stub(crate::magic::line, crate::vstubs::line_cf)]
 #[kani::stub(crate::magic::get_bishop_moves, crate::vstubs::bishop_moves_cf)]
 fn c01_legals_bishop_check() {
-    producer_check::<BishopType, InCheckType>(sp::BISHOP);
+    producer_check_n::<BishopType, InCheckType>(sp::BISHOP, 1);
 }
 
-// @ob id=O1.4r0 props=C01 tier=quick kind=bounded weight=light bound="at most 3 rooks of the mover" fn="PieceType::legals (default body) for RookType, NotInCheckType" desc="generic legals body for rooks, not in check"
+// @ob id=O1.4b1t props=C01 tier=thorough kind=bounded weight=medium bound="at most 3 bishops of the mover" fn="PieceType::legals (default body) for BishopType, InCheckType" desc="generic legals body for bishops in single check: pinned bishops skipped, others restricted to the check mask"
+#[kani::proof]
+#[kani::unwind(9)]
+#[kani::stub(crate::magic::between, crate::vstubs::between_cf)]
+#[kani::stub(crate::magic::line, crate::vstubs::line_cf)]
+#[kani::stub(crate::magic::get_bishop_moves, crate::vstubs::bishop_moves_cf)]
+fn c01_legals_bishop_check_3() {
+    producer_check_n::<BishopType, InCheckType>(sp::BISHOP, 3);
+}
+
+// @ob id=O1.4r0 props=C01 tier=quick kind=bounded weight=light bound="at most 1 rook of the mover (the Verus loop proof O1.4/O1.4n/O1.5 shows every entry depends only on its own source square); everything else symbolic (any valid position, symbolic king)" fn="PieceType::legals (default body) for RookType, NotInCheckType" desc="generic legals body for rooks, not in check"
 #[kani::proof]
 #[kani::unwind(9)]
 #[kani::stub(crate::magic::between, crate::vstubs::between_cf)]
 #[kani::stub(crate::magic::line, crate::vstubs::line_cf)]
 #[kani::stub(crate::magic::get_rook_moves, crate::vstubs::rook_moves_cf)]
 fn c01_legals_rook_nocheck() {
-    producer_check::<RookType, NotInCheckType>(sp::ROOK);
+    producer_check_n::<RookType, NotInCheckType>(sp::ROOK, 1);
 }
 
-// @ob id=O1.4r1 props=C01 tier=quick kind=bounded weight=light bound="at most 3 rooks of the mover" fn="PieceType::legals (default body) for RookType, InCheckType" desc="generic legals body for rooks, single check"
+// @ob id=O1.4r0t props=C01 tier=thorough kind=bounded weight=medium bound="at most 3 rooks of the mover" fn="PieceType::legals (default body) for RookType, NotInCheckType" desc="generic legals body for rooks, not in check"
+#[kani::proof]
+#[kani::unwind(9)]
+#[kani::stub(crate::magic::between, crate::vstubs::between_cf)]
+#[kani::stub(crate::magic::line, crate::vstubs::line_cf)]
+#[kani::stub(crate::magic::get_rook_moves, crate::vstubs::rook_moves_cf)]
+fn c01_legals_rook_nocheck_3() {
+    producer_check_n::<RookType, NotInCheckType>(sp::ROOK, 3);
+}
+
+// @ob id=O1.4r1 props=C01 tier=quick kind=bounded weight=light bound="at most 1 rook of the mover (the Verus loop proof O1.4/O1.4n/O1.5 shows every entry depends only on its own source square); everything else symbolic (any valid position, symbolic king)" fn="PieceType::legals (default body) for RookType, InCheckType" desc="generic legals body for rooks, single check"
 #[kani::proof]
 #[kani::unwind(9)]
 #[kani::stub(crate::magic::between, crate::vstubs::between_cf)]
 #[kani::stub(crate::magic::line, crate::vstubs::line_cf)]
 #[kani::stub(crate::magic::get_rook_moves, crate::vstubs::rook_moves_cf)]
 fn c01_legals_rook_check() {
-    producer_check::<RookType, InCheckType>(sp::ROOK);
+    producer_check_n::<RookType, InCheckType>(sp::ROOK, 1);
 }
 
-// @ob id=O1.4q0 props=C01 tier=quick kind=bounded weight=light bound="at most 3 queens of the mover" fn="PieceType::legals (default body) for QueenType, NotInCheckType" desc="generic legals body for queens, not in check"
+// @ob id=O1.4r1t props=C01 tier=thorough kind=bounded weight=medium bound="at most 3 rooks of the mover" fn="PieceType::legals (default body) for RookType, InCheckType" desc="generic legals body for rooks, single check"
+#[kani::proof]
+#[kani::unwind(9)]
+#[kani::stub(crate::magic::between, crate::vstubs::between_cf)]
+#[kani::stub(crate::magic::line, crate::vstubs::line_cf)]
+#[kani::stub(crate::magic::get_rook_moves, crate::vstubs::rook_moves_cf)]
+fn c01_legals_rook_check_3() {
+    producer_check_n::<RookType, InCheckType>(sp::ROOK, 3);
+}
+
+// @ob id=O1.4q0 props=C01 tier=quick kind=bounded weight=light bound="at most 1 queen of the mover (the Verus loop proof O1.4/O1.4n/O1.5 shows every entry depends only on its own source square); everything else symbolic (any valid position, symbolic king)" fn="PieceType::legals (default body) for QueenType, NotInCheckType" desc="generic legals body for queens, not in check"
 #[kani::proof]
 #[kani::unwind(9)]
 #[kani::stub(crate::magic::between, crate::vstubs::between_cf)]
@@ -228,10 +301,21 @@ fn c01_legals_rook_check() {
 #[kani::stub(crate::magic::get_rook_moves, crate::vstubs::rook_moves_cf)]
 #[kani::stub(crate::magic::get_bishop_moves, crate::vstubs::bishop_moves_cf)]
 fn c01_legals_queen_nocheck() {
-    producer_check::<QueenType, NotInCheckType>(sp::QUEEN);
+    producer_check_n::<QueenType, NotInCheckType>(sp::QUEEN, 1);
 }
 
-// @ob id=O1.4q1 props=C01 tier=quick kind=bounded weight=light bound="at most 3 queens of the mover" fn="PieceType::legals (default body) for QueenType, InCheckType" desc="generic legals body for queens, single check"
+// @ob id=O1.4q0t props=C01 tier=thorough kind=bounded weight=medium bound="at most 3 queens of the mover" fn="PieceType::legals (default body) for QueenType, NotInCheckType" desc="generic legals body for queens, not in check"
+#[kani::proof]
+#[kani::unwind(9)]
+#[kani::stub(crate::magic::between, crate::vstubs::between_cf)]
+#[kani::stub(crate::magic::line, crate::vstubs::line_cf)]
+#[kani::stub(crate::magic::get_rook_moves, crate::vstubs::rook_moves_cf)]
+#[kani::stub(crate::magic::get_bishop_moves, crate::vstubs::bishop_moves_cf)]
+fn c01_legals_queen_nocheck_3() {
+    producer_check_n::<QueenType, NotInCheckType>(sp::QUEEN, 3);
+}
+
+// @ob id=O1.4q1 props=C01 tier=quick kind=bounded weight=light bound="at most 1 queen of the mover (the Verus loop proof O1.4/O1.4n/O1.5 shows every entry depends only on its own source square); everything else symbolic (any valid position, symbolic king)" fn="PieceType::legals (default body) for QueenType, InCheckType" desc="generic legals body for queens, single check"
 #[kani::proof]
 #[kani::unwind(9)]
 #[kani::stub(crate::magic::between, crate::vstubs::between_cf)]
@@ -239,10 +323,21 @@ fn c01_legals_queen_nocheck() {
 #[kani::stub(crate::magic::get_rook_moves, crate::vstubs::rook_moves_cf)]
 #[kani::stub(crate::magic::get_bishop_moves, crate::vstubs::bishop_moves_cf)]
 fn c01_legals_queen_check() {
-    producer_check::<QueenType, InCheckType>(sp::QUEEN);
+    producer_check_n::<QueenType, InCheckType>(sp::QUEEN, 1);
 }
 
-// @ob id=O1.5p0 props=C01,C05,C17 tier=quick kind=bounded weight=light bound="at most 2 pawns of the mover" fn="PawnType::legals::<NotInCheckType>" desc="real PawnType::legals, not in check: pushes/captures of unpinned pawns, pinned pawns along the king line, promotion flag exactly on the seventh rank, one extra entry per legal en-passant capture (definitional legality), none when no en-passant state"
+// @ob id=O1.4q1t props=C01 tier=thorough kind=bounded weight=medium bound="at most 3 queens of the mover" fn="PieceType::legals (default body) for QueenType, InCheckType" desc="generic legals body for queens, single check"
+#[kani::proof]
+#[kani::unwind(9)]
+#[kani::stub(crate::magic::between, crate::vstubs::between_cf)]
+#[kani::stub(crate::magic::line, crate::vstubs::line_cf)]
+#[kani::stub(crate::magic::get_rook_moves, crate::vstubs::rook_moves_cf)]
+#[kani::stub(crate::magic::get_bishop_moves, crate::vstubs::bishop_moves_cf)]
+fn c01_legals_queen_check_3() {
+    producer_check_n::<QueenType, InCheckType>(sp::QUEEN, 3);
+}
+
+// @ob id=O1.5p0 props=C01,C05 tier=quick kind=bounded weight=light bound="at most 1 pawn of the mover (the Verus loop proof O1.4/O1.4n/O1.5 shows every entry depends only on its own source square); everything else symbolic (any valid position, symbolic king)" fn="PawnType::legals::<NotInCheckType>" desc="real PawnType::legals, not in check: pushes/captures of unpinned pawns, pinned pawns along the king line, promotion flag exactly on the seventh rank, one extra entry per legal en-passant capture (definitional legality), none when no en-passant state"
 #[kani::proof]
 #[kani::unwind(9)]
 #[kani::stub(crate::magic::between, crate::vstubs::between_cf)]
@@ -255,10 +350,26 @@ fn c01_legals_queen_check() {
 #[kani::stub(crate::magic::get_rook_rays, crate::vstubs::rook_rays_cf)]
 #[kani::stub(crate::magic::get_bishop_rays, crate::vstubs::bishop_rays_cf)]
 fn c01_legals_pawn_nocheck() {
-    producer_check_n::<PawnType, NotInCheckType>(sp::PAWN, 2);
+    producer_check_n::<PawnType, NotInCheckType>(sp::PAWN, 1);
 }
 
-// @ob id=O1.5p1 props=C01,C05 tier=quick kind=bounded weight=light bound="at most 2 pawns of the mover" fn="PawnType::legals::<InCheckType>" desc="real PawnType::legals in single check, including the en-passant capture of a checking pawn"
+// @ob id=O1.5p0t props=C01,C05,C17 tier=thorough kind=bounded weight=medium bound="at most 3 pawns of the mover" fn="PawnType::legals::<NotInCheckType>" desc="real PawnType::legals, not in check: pushes/captures of unpinned pawns, pinned pawns along the king line, promotion flag exactly on the seventh rank, one extra entry per legal en-passant capture (definitional legality), none when no en-passant state"
+#[kani::proof]
+#[kani::unwind(9)]
+#[kani::stub(crate::magic::between, crate::vstubs::between_cf)]
+#[kani::stub(crate::magic::line, crate::vstubs::line_cf)]
+#[kani::stub(crate::magic::get_pawn_moves, crate::vstubs::pawn_moves_cf)]
+#[kani::stub(crate::magic::get_rank, crate::vstubs::rank_cf)]
+#[kani::stub(crate::magic::get_adjacent_files, crate::vstubs::adjacent_files_cf)]
+#[kani::stub(crate::magic::get_rook_moves, crate::vstubs::rook_moves_cf)]
+#[kani::stub(crate::magic::get_bishop_moves, crate::vstubs::bishop_moves_cf)]
+#[kani::stub(crate::magic::get_rook_rays, crate::vstubs::rook_rays_cf)]
+#[kani::stub(crate::magic::get_bishop_rays, crate::vstubs::bishop_rays_cf)]
+fn c01_legals_pawn_nocheck_3() {
+    producer_check_n::<PawnType, NotInCheckType>(sp::PAWN, 3);
+}
+
+// @ob id=O1.5p1 props=C01,C05 tier=quick kind=bounded weight=light bound="at most 1 pawn of the mover (the Verus loop proof O1.4/O1.4n/O1.5 shows every entry depends only on its own source square); everything else symbolic (any valid position, symbolic king)" fn="PawnType::legals::<InCheckType>" desc="real PawnType::legals in single check, including the en-passant capture of a checking pawn"
 #[kani::proof]
 #[kani::unwind(9)]
 #[kani::stub(crate::magic::between, crate::vstubs::between_cf)]
@@ -271,7 +382,39 @@ fn c01_legals_pawn_nocheck() {
 #[kani::stub(crate::magic::get_rook_rays, crate::vstubs::rook_rays_cf)]
 #[kani::stub(crate::magic::get_bishop_rays, crate::vstubs::bishop_rays_cf)]
 fn c01_legals_pawn_check() {
-    producer_check_n::<PawnType, InCheckType>(sp::PAWN, 2);
+    producer_check_n::<PawnType, InCheckType>(sp::PAWN, 1);
+}
+
+// @ob id=O1.5p1t props=C01,C05 tier=thorough kind=bounded weight=medium bound="at most 3 pawns of the mover" fn="PawnType::legals::<InCheckType>" desc="real PawnType::legals in single check, including the en-passant capture of a checking pawn"
+#[kani::proof]
+#[kani::unwind(9)]
+#[kani::stub(crate::magic::between, crate::vstubs::between_cf)]
+#[kani::stub(crate::magic::line, crate::vstubs::line_cf)]
+#[kani::stub(crate::magic::get_pawn_moves, crate::vstubs::pawn_moves_cf)]
+#[kani::stub(crate::magic::get_rank, crate::vstubs::rank_cf)]
+#[kani::stub(crate::magic::get_adjacent_files, crate::vstubs::adjacent_files_cf)]
+#[kani::stub(crate::magic::get_rook_moves, crate::vstubs::rook_moves_cf)]
+#[kani::stub(crate::magic::get_bishop_moves, crate::vstubs::bishop_moves_cf)]
+#[kani::stub(crate::magic::get_rook_rays, crate::vstubs::rook_rays_cf)]
+#[kani::stub(crate::magic::get_bishop_rays, crate::vstubs::bishop_rays_cf)]
+fn c01_legals_pawn_check_3() {
+    producer_check_n::<PawnType, InCheckType>(sp::PAWN, 3);
+}
+
+// @ob id=O1.5e2 props=C01,C05,C17 tier=quick kind=bounded weight=light bound="exactly the positions WITH en-passant state, at most 2 pawns of the mover (both may stand beside the pushed pawn)" fn="PawnType::legals::<NotInCheckType>" desc="the en-passant block with two candidate capturers: each gets its own entry exactly when ITS capture is legal (one may be pinned while the other is not), single destination behind the pushed pawn, never flagged as promotion"
+#[kani::proof]
+#[kani::unwind(9)]
+#[kani::stub(crate::magic::between, crate::vstubs::between_cf)]
+#[kani::stub(crate::magic::line, crate::vstubs::line_cf)]
+#[kani::stub(crate::magic::get_pawn_moves, crate::vstubs::pawn_moves_cf)]
+#[kani::stub(crate::magic::get_rank, crate::vstubs::rank_cf)]
+#[kani::stub(crate::magic::get_adjacent_files, crate::vstubs::adjacent_files_cf)]
+#[kani::stub(crate::magic::get_rook_moves, crate::vstubs::rook_moves_cf)]
+#[kani::stub(crate::magic::get_bishop_moves, crate::vstubs::bishop_moves_cf)]
+#[kani::stub(crate::magic::get_rook_rays, crate::vstubs::rook_rays_cf)]
+#[kani::stub(crate::magic::get_bishop_rays, crate::vstubs::bishop_rays_cf)]
+fn c01_legals_pawn_ep2() {
+    producer_check_ep::<PawnType, NotInCheckType>(sp::PAWN, 2);
 }
 
 /// king producer: steps by definition with the king lifted, castling per Art. 3.8.2
